@@ -119,3 +119,63 @@ func TestC11BodyOrError(t *testing.T) {
 		}
 	}
 }
+
+// TestC11CallerConnectionHeader: MaxConnDuration makes the client announce Connection: close on a request it
+// sends over a connection that is older than the limit. That is the client's addition for one attempt: the
+// Connection field the caller set itself (here "TE", with "TE: trailers") still reaches the server on that
+// request, and the caller's Request object holds it after Do has returned.
+func TestC11CallerConnectionHeader(t *testing.T) {
+	rec := ev.New("caller-connection-header")
+	var got []string
+	done := make(chan struct{}, 16)
+	addr, stop := servePeer(t, func(c net.Conn) {
+		for {
+			buf := make([]byte, 0, 4096)
+			tmp := make([]byte, 1024)
+			for !strings.Contains(string(buf), "\r\n\r\n") {
+				n, err := c.Read(tmp)
+				if err != nil {
+					return
+				}
+				buf = append(buf, tmp[:n]...)
+			}
+			got = append(got, string(buf))
+			fmt.Fprint(c, "HTTP/1.1 200 OK\r\nContent-Length: 2\r\n\r\nok")
+			done <- struct{}{}
+			if strings.Contains(strings.ToLower(string(buf)), "connection: close") {
+				return
+			}
+		}
+	})
+	defer stop()
+	cl, err := client.NewClient(client.WithMaxConnDuration(30 * time.Millisecond))
+	if err != nil {
+		t.Fatalf("harness: %v", err)
+	}
+	req, resp := protocol.AcquireRequest(), protocol.AcquireResponse()
+	for i := 0; i < 3; i++ {
+		req.Reset()
+		resp.Reset()
+		req.SetRequestURI("http://" + addr + "/x")
+		req.Header.Set("Connection", "TE")
+		req.Header.Set("TE", "trailers")
+		if err := cl.Do(context.Background(), req, resp); err != nil {
+			t.Fatalf("harness: exchange %d: %v", i, err)
+		}
+		<-done
+		rec.Case(true, ev.HashString(fmt.Sprint(i)), "exchange-on-an-old-connection")
+		after := string(req.Header.Peek("Connection"))
+		wire := strings.ToLower(got[len(got)-1])
+		bad := ""
+		if !strings.Contains(wire, "connection: te") && !strings.Contains(wire, "te, close") && !strings.Contains(wire, "close, te") {
+			bad = fmt.Sprintf("exchange %d: the request on the wire has lost the caller's Connection: TE: %q", i, got[len(got)-1])
+		} else if after != "TE" && !strings.Contains(strings.ToLower(after), "te") {
+			bad = fmt.Sprintf("exchange %d: after Do the caller's Request has Connection = %q (set: \"TE\")", i, after)
+		}
+		if bad != "" {
+			ev.Fail(prop, "caller-connection-header", map[string]interface{}{"exchange": i}, bad)
+			t.Errorf("%s", bad)
+		}
+		time.Sleep(60 * time.Millisecond) // older than MaxConnDuration for the next exchange
+	}
+}
